@@ -257,7 +257,10 @@ def rule_schedule(ctx, repo):
         ok = bool(new) and bool(upd) and f.g.guarded_by(new[0], t[0], "true") and f.g.guarded_by(upd[0], t[0], "false")
     ctx.check(ok, "C06.schedule", "store_switch_times/merge", "coincident times merge their model sets",
               "coincident event times overwrite each other's model set (an event would be lost)", f.W())
-    ok = Q.has("self.switch_times = np.array(list(self.switch_dict.keys()))", fn) and Q.has("self.n_switches = len(self.switch_times)", fn)
+    ok = any(Q.has("self.switch_times = %s" % v_, fn) for v_ in (
+        "np.array(list(self.switch_dict.keys()))", "np.array(list(self.switch_dict))", "np.array(sorted(self.switch_dict))",
+        "np.array(sorted(self.switch_dict.keys()))", "np.fromiter(self.switch_dict, dtype=float)", "np.fromiter(self.switch_dict.keys(), dtype=float)")) \
+        and any(Q.has("self.n_switches = %s" % v_, fn) for v_ in ("len(self.switch_times)", "self.switch_times.size", "len(self.switch_dict)"))
     ctx.check(ok, "C06.schedule", "store_switch_times/keys", "switch_times = keys of switch_dict; n_switches = len",
               "switch_times / n_switches no longer derived from switch_dict", f.W())
     s = F.method(repo, "System", "switch_action", SYSTEM)
